@@ -4,16 +4,18 @@ From Coq Require Import List NArith Bool Lia ZifyNat ZifyN ZifyBool.
 Import ListNotations.
 Require Import Celma.Common.Res Celma.FixedStr.FsBase Celma.FixedStr.FsModel
   Celma.FixedStr.FsLemmas Celma.FixedStr.FsSafe Celma.FixedStr.FsSafeObs Celma.FixedStr.FsSafeAll
-  Celma.FixedStr.FsStd Celma.FixedStr.FsRefine Celma.FixedStr.FsRefineObs Celma.FixedStr.FsRefine3.
+  Celma.FixedStr.FsStd Celma.FixedStr.FsRefine Celma.FixedStr.FsRefineObs Celma.FixedStr.FsRefine3
+  Celma.FixedStr.FsIter.
 Local Open Scope N_scope.
 
 (** observers with a refinement theorem (the find family, contains, ends_with
-    and the two traversals are tied by the correspondence check only) *)
+    and single iterator steps are tied by the correspondence check only) *)
 Definition is_proved_obs (x : op) : bool :=
   match x with
   | OCmpFs | OCmpS _ | OCmpC _ | OCmppFs _ _ | OCmppS _ _ _ | OCmppC _ _ _
   | OCmpppFs _ _ _ _ | OCmpppS _ _ _ _ _ | OCmpppC _ _ _ _
-  | OSw _ | OSubstr _ _ | OCopy _ _ | OAt _ | OFront | OBack | OLen | OEmpty | OStr | OEq | ONe => true
+  | OSw _ | OSubstr _ _ | OCopy _ _ | OAt _ | OFront | OBack | OLen | OEmpty | OStr | OEq | ONe
+  | OItF | OItR => true
   | _ => false
   end.
 
@@ -97,6 +99,8 @@ Proof.
   - (* str *) rewrite (str_refines L s Hs). reflexivity.
   - (* eq *) rewrite (eq_op_refines L s o Hs Ho). reflexivity.
   - (* ne *) rewrite (ne_op_refines L s o Hs Ho). reflexivity.
+  - (* forward traversal *) rewrite (iter_forward L HL s Hs). reflexivity.
+  - (* backward traversal *) rewrite (iter_reverse L HL s Hs). reflexivity.
 Qed.
 
 End Refine4.
